@@ -144,6 +144,9 @@ mod response;
 mod impl_coap_message;
 mod impl_coap_message_0_3;
 
+#[cfg(coap_lite_verif)]
+pub mod verif;
+
 #[cfg(feature = "std")]
 pub use block_handler::{BlockHandler, BlockHandlerConfig};
 pub use header::{
